@@ -10,6 +10,7 @@
 #include <tbox/base/verif_hooks.h>
 #include <thread>
 #include <stdexcept>
+#include <functional>
 #include <atomic>
 #include <memory>
 #include <algorithm>
@@ -38,7 +39,10 @@ void spin_us(unsigned us) {
   auto end = std::chrono::steady_clock::now() + std::chrono::microseconds(us);
   while (std::chrono::steady_clock::now() < end) { }
 }
+// probe run at the schedule point inside ThreadPool::cleanup() that lies between "waiting tasks dropped" and "stop flag set"
+std::function<void()> g_cleanup_probe;
 void sched_hook(const char *name) {
+  if (strcmp(name, "thread_pool.cleanup_before_stop_flag") == 0) { if (g_cleanup_probe) g_cleanup_probe(); }   // only the thread that calls cleanup() passes this point, so only it touches the probe
   static thread_local uint64_t st = 0;
   if (st == 0) st = g_sched_seed.fetch_add(0x9E3779B97F4A7C15ull) | 1;
   for (int i = 0; i < kNPoints; ++i) {
@@ -85,6 +89,7 @@ struct PoolAdapter {
   int cancel(tbox::cabinet::Token t) { return p.cancel(t); }
   void cleanup() { p.cleanup(); }
   int thread_num() { return (int)p.snapshot().thread_num; }
+  int waiting_num() { auto ss = p.snapshot(); int n = 0; for (size_t i = 0; i < THREAD_POOL_PRIO_SIZE; ++i) n += (int)ss.undo_task_num[i]; return n; }
 };
 struct WorkAdapter {
   static constexpr bool kIsPool = false;
@@ -98,6 +103,7 @@ struct WorkAdapter {
   int cancel(tbox::cabinet::Token t) { return w->cancel(t); }
   void cleanup() { w->cleanup(); }
   int thread_num() { return 1; }
+  int waiting_num() { return 0; }
 };
 
 template <class A>
@@ -158,10 +164,19 @@ std::string run_impl(const Scenario &s, CaseInfo &info) {
       }
       if (running >= 1 && waiting >= 1) nt_cleanup_mixed = true;
       sh.cleanup_started = true;
+      // inside cleanup(), right after it has dropped the waiting tasks: nothing may be waiting any more (nobody submits meanwhile)
+      int left_waiting = 0; if (A::kIsPool) g_cleanup_probe = [&] { left_waiting = a.waiting_num(); };
       a.cleanup();                    // a hang is caught by the per-case watchdog
+      g_cleanup_probe = nullptr;
+      if (left_waiting > 0 && err.empty()) { snprintf(buf, sizeof buf, "cleanup() has dropped the waiting tasks but %d task(s) are still waiting: they can still be picked by a worker or by the workers of the next initialize() although cleanup began before they started", left_waiting); err = buf; }
       cleanup_end_stamp[epoch] = sh.next();
       sh.cleanup_started = false;
       ready = false;
+      // a task that was still waiting when cleanup() began has been dropped for good: it must not be reported as waiting (= going to run) any more
+      if (A::kIsPool) for (int i = 0; i < sh.n && err.empty(); ++i) if (sh.t[i].epoch == epoch && sh.t[i].queued_at_cleanup && sh.t[i].body_start.load() == 0) {
+        int st = a.status(sh.t[i].token);
+        if (st == 0) { snprintf(buf, sizeof buf, "after cleanup() returned, task %d (priority %d), which was waiting when cleanup() began, is still reported kWaiting: it has not been dropped and would run after the next initialize()", i, sh.t[i].prio); err = buf; }
+      }
     };
     auto quiesce = [&]() -> bool {     // open all gates, wait until every accepted, non-cancelled task of this epoch has run
       for (auto &g : sh.gate_open) g = true;
@@ -343,7 +358,7 @@ rc::Gen<Scenario> gen_common(bool pool) {
   auto tok = range(0, kMaxTasks - 1);
   auto body = rc::gen::weightedOneOf<int64_t>({{4, rc::gen::just<int64_t>(0)}, {3, rc::gen::just<int64_t>(1)}, {3, rc::gen::just<int64_t>(2)}});
   auto opg = rc::gen::weightedOneOf<Op>({
-    {10, mkop(EXEC, {range(-3, 3), body, rc::gen::weightedOneOf<int64_t>({{3, range(0, 40)}, {1, range(0, 400)}}), range(0, kGates - 1), range(0, 1), range(0, 2), range(0, 4)})},
+    {10, mkop(EXEC, {range(0, 6) /* raw value; Op::in() maps it to priority -3..3 (incl. the out-of-range ones that get clamped) */, body, rc::gen::weightedOneOf<int64_t>({{3, range(0, 40)}, {1, range(0, 400)}}), range(0, kGates - 1), range(0, 1), range(0, 2), range(0, 4)})},
     {5, mkop(STATUS, {tok, range(0, 2)})},
     {4, mkop(CANCEL, {tok, range(0, 2)})},
     {1, mkop(SNAP, {})},
